@@ -14,7 +14,8 @@
 (*     p_cman    cacheMan.Set(artifact)                                    *)
 (*     p_crl     cacheRL.Delete(subject); API acknowledged -> return       *)
 (*  scheme/reg/referrer.go:referrerPut                                     *)
-(*     p_lock    muRefTag.Lock            (iff LockPut; the code: TRUE)    *)
+(*     p_lock    muRefTag.Lock (iff LockPut; the code: TRUE); the lock is   *)
+(*               an object (lkmap / lkheld / want, LockStyle), see below   *)
 (*     p_get_rq  referrerListByTag = ManifestGet(fall-back tag) (+ the     *)
 (*               cacheMan.Set inside ManifestGet) + ReferrerList.Add       *)
 (*               (new manifest object; as found: SetOrig on the fetched)   *)
@@ -96,6 +97,7 @@ CONSTANTS ProcSeq,     \* updater goroutines, as a sequence (fixes the launch or
           LockDelEarly,\* ... and takes it before cacheRL.Delete (code: TRUE)
           CowIndex,    \* Add/Delete build a new object     (code: TRUE, as found: FALSE)
           InvAfterDel, \* ManifestDelete clears cacheRL again after its DELETE (code: TRUE, as found: FALSE)
+          LockStyle,   \* "global" (the code: the one mutex muRefTag) | "persubj" | "dropfree" | "perart"
           NormKey,     \* ReferrerList normalises the subject reference (SetDigest: tag dropped) before
                        \* it is used as the key of cacheRL, like every invalidation site (code: TRUE)
           ObsFilters,  \* the queries the lister may issue (a subset of Filters)
@@ -107,15 +109,16 @@ PIdx(p) == CHOOSE i \in 1..Len(ProcSeq) : ProcSeq[i] = p
 
 VARIABLES conf,
           srvMan, srvTag, srvIdx,                 \* registry / layout
-          feat, cacheRL, cacheArt, cacheIdx, mu,  \* client (reg.Reg)
+          feat, cacheRL, cacheArt, cacheIdx,      \* client (reg.Reg)
+          lkmap, lkheld, want,                    \* the lock(s) of the fall-back tag update
           pc, op, obj,                            \* updater goroutines
           lpc, lq, lacc, lcur, lconc,             \* the lister
           phase, left,                            \* history control
           out                                     \* observable event of the last step
-dvars == <<conf, srvMan, srvTag, srvIdx, feat, cacheRL, cacheArt, cacheIdx, mu,
+dvars == <<conf, srvMan, srvTag, srvIdx, feat, cacheRL, cacheArt, cacheIdx, lkmap, lkheld, want,
            pc, op, obj, lpc, lq, lacc, lcur, lconc, phase, left, out>>
 \* everything except `out` (which no action reads): the VIEW of the model-checking configs
-dview == <<conf, srvMan, srvTag, srvIdx, feat, cacheRL, cacheArt, cacheIdx, mu,
+dview == <<conf, srvMan, srvTag, srvIdx, feat, cacheRL, cacheArt, cacheIdx, lkmap, lkheld, want,
            pc, op, obj, lpc, lq, lacc, lcur, lconc, phase, left>>
 
 NoTag == [k |-> "none", v |-> <<>>]
@@ -137,6 +140,10 @@ Without(s, a) == SelectSeq(s, LAMBDA b : b # a)
 Deref(e, objv) == IF e.k = "ref" THEN objv[e.p].v ELSE e.v
 Freeze(c, p, v) == [d \in DOMAIN c |-> IF c[d].k = "ref" /\ c[d].p = p THEN ValEnt(v) ELSE c[d]]
 
+\* keys of the lock map and the lock objects (see "the lock as an object" below)
+LKeys == {"g"} \cup Subj \cup Arts
+LSeq == <<"L1", "L2", "L3", "L4", "L5", "L6">>
+LockIds == {"G"} \cup Range(LSeq)
 Cache == conf.cache = 1
 \* keys of cacheRL: the normalised subject reference (the subject itself) and, for a caller that
 \* writes repo:tag@digest, the reference as written; put / delete only ever use the normalised one
@@ -155,7 +162,8 @@ Init ==
   /\ conf \in Confs
   /\ srvMan = {} /\ srvTag = [s \in Subj |-> NoTag] /\ srvIdx = {}
   /\ feat = "unknown" /\ cacheRL = [k \in RLKeys |-> NoList] /\ cacheArt = {} /\ cacheIdx = <<>>
-  /\ mu = ""
+  /\ lkmap = [k \in LKeys |-> IF k = "g" THEN "G" ELSE ""] /\ lkheld = [o \in LockIds |-> ""]
+  /\ want = [p \in Procs |-> ""]
   /\ pc = [p \in Procs |-> "idle"] /\ op = [p \in Procs |-> NoOp] /\ obj = [p \in Procs |-> NoObj]
   /\ lpc = "idle" /\ lq = [s |-> "s1", f |-> "none"] /\ lacc = <<>> /\ lcur = 0 /\ lconc = FALSE
   /\ phase = "run" /\ left = MaxOps
@@ -171,8 +179,37 @@ Finish(p, res, c, ov) ==
   /\ cacheIdx' = Freeze(c, p, ov)
   /\ obj' = [obj EXCEPT ![p] = NoObj]
   /\ out' = [ev |-> "ret", id |-> p, res |-> res]
-Unlock(p) == mu' = IF mu = p THEN "" ELSE mu
-Held(p) == mu = p
+\* ---- the lock as an object.  muRefTag is ONE mutex ("G", LockStyle = "global": the code).  The other
+\* styles are designs that keep a mutex per key in a map, looked up (and created) before it is locked:
+\*   "persubj"  one per subject, entries stay            (correct, equivalent while calls share a subject)
+\*   "dropfree" one per subject, the releaser deletes the entry without looking for waiters: a waiter
+\*              then owns a mutex that is no longer in the map and a newcomer creates a fresh one
+\*   "perart"   keyed by the artifact being pushed / deleted instead of its subject
+\* lkmap: key -> lock object, lkheld: lock object -> holder, want[p]: the object p looked up / holds.
+KeyOf(p) == CASE LockStyle = "global" -> "g" [] LockStyle = "perart" -> A(p) [] OTHER -> S(p)
+InUse == {lkmap[k] : k \in LKeys} \cup {want[q] : q \in Procs} \cup {o \in LockIds : lkheld[o] # ""}
+Fresh == LSeq[CHOOSE i \in 1..Len(LSeq) : LSeq[i] \notin InUse /\ \A j \in 1..(i - 1) : LSeq[j] \in InUse]
+\* the object p is going for: the one it looked up, else the global mutex, else none yet
+Tgt(w, p) == IF w[p] # "" THEN w[p] ELSE IF LockStyle = "global" THEN "G" ELSE ""
+\* one step at a lock pc: look the mutex up in the map (map styles, first visit), else Lock() it
+TakeLock(p, next) ==
+  IF LockStyle # "global" /\ want[p] = ""
+  THEN LET o == IF lkmap[KeyOf(p)] # "" THEN lkmap[KeyOf(p)] ELSE Fresh IN
+       /\ lkmap' = [lkmap EXCEPT ![KeyOf(p)] = o]
+       /\ want' = [want EXCEPT ![p] = o]
+       /\ UNCHANGED <<lkheld, pc>>
+  ELSE /\ lkheld[Tgt(want, p)] = ""
+       /\ lkheld' = [lkheld EXCEPT ![Tgt(want, p)] = p]
+       /\ want' = [want EXCEPT ![p] = Tgt(want, p)]
+       /\ Goto(p, next)
+       /\ UNCHANGED lkmap
+Held(p) == want[p] # "" /\ lkheld[want[p]] = p
+Unlock(p) ==
+  IF Held(p)
+  THEN /\ lkheld' = [lkheld EXCEPT ![want[p]] = ""]
+       /\ want' = [want EXCEPT ![p] = ""]
+       /\ lkmap' = IF LockStyle = "dropfree" THEN [lkmap EXCEPT ![KeyOf(p)] = ""] ELSE lkmap
+  ELSE UNCHANGED <<lkmap, lkheld, want>>
 
 \* ---------------------------------------------------------------- launching
 Launch(p, k, a) ==
@@ -186,20 +223,20 @@ Launch(p, k, a) ==
   /\ pc' = [pc EXCEPT ![p] = IF ~Reg THEN "o_run" ELSE IF k = "put" THEN "p_put_rq" ELSE "d_get"]
   /\ left' = left - 1 /\ phase' = "run"
   /\ out' = [ev |-> "call", id |-> p, k |-> k, a |-> a]
-  /\ UNCHANGED <<conf, srvMan, srvTag, srvIdx, feat, cacheRL, cacheArt, cacheIdx, mu, obj, lpc, lq, lacc, lcur>>
+  /\ UNCHANGED <<conf, srvMan, srvTag, srvIdx, feat, cacheRL, cacheArt, cacheIdx, lkmap, lkheld, want, obj, lpc, lq, lacc, lcur>>
 
 \* ------------------------------------------------ reg: ManifestPut + referrerPut
 PPutRq(p) ==
   /\ pc[p] = "p_put_rq"
   /\ srvMan' = srvMan \cup {A(p)}
   /\ Goto(p, "p_cman") /\ Silent
-  /\ UNCHANGED <<conf, srvTag, srvIdx, feat, cacheRL, cacheArt, cacheIdx, mu, op, obj, lpc, lq, lacc, lcur, lconc, phase, left>>
+  /\ UNCHANGED <<conf, srvTag, srvIdx, feat, cacheRL, cacheArt, cacheIdx, lkmap, lkheld, want, op, obj, lpc, lq, lacc, lcur, lconc, phase, left>>
 
 PCMan(p) ==
   /\ pc[p] = "p_cman"
   /\ cacheArt' = IF Cache THEN cacheArt \cup {A(p)} ELSE cacheArt
   /\ Goto(p, "p_crl") /\ Silent
-  /\ UNCHANGED <<conf, srvMan, srvTag, srvIdx, feat, cacheRL, cacheIdx, mu, op, obj, lpc, lq, lacc, lcur, lconc, phase, left>>
+  /\ UNCHANGED <<conf, srvMan, srvTag, srvIdx, feat, cacheRL, cacheIdx, lkmap, lkheld, want, op, obj, lpc, lq, lacc, lcur, lconc, phase, left>>
 
 PCRL(p) ==
   /\ pc[p] = "p_crl"
@@ -207,12 +244,12 @@ PCRL(p) ==
   /\ IF conf.mode = "api"
      THEN Finish(p, "ok", cacheIdx, <<>>)
      ELSE Goto(p, "p_lock") /\ Silent /\ UNCHANGED <<cacheIdx, obj>>
-  /\ UNCHANGED <<conf, srvMan, srvTag, srvIdx, feat, cacheArt, mu, op, lpc, lq, lacc, lcur, lconc, phase, left>>
+  /\ UNCHANGED <<conf, srvMan, srvTag, srvIdx, feat, cacheArt, lkmap, lkheld, want, op, lpc, lq, lacc, lcur, lconc, phase, left>>
 
 PLock(p) ==
   /\ pc[p] = "p_lock"
-  /\ IF LockPut THEN mu = "" /\ mu' = p ELSE UNCHANGED mu
-  /\ Goto(p, "p_get_rq") /\ Silent
+  /\ IF LockPut THEN TakeLock(p, "p_get_rq") ELSE Goto(p, "p_get_rq") /\ UNCHANGED <<lkmap, lkheld, want>>
+  /\ Silent
   /\ UNCHANGED <<conf, srvMan, srvTag, srvIdx, feat, cacheRL, cacheArt, cacheIdx, op, obj, lpc, lq, lacc, lcur, lconc, phase, left>>
 
 \* ManifestGet(tag) caches the fetched object under its digest, then Add mutates it
@@ -223,13 +260,13 @@ PGetRq(p) ==
      CASE t.k = "none" ->
             /\ obj' = [obj EXCEPT ![p] = IdxTag(AddTo(<<>>, A(p)))]
             /\ Goto(p, "p_puttag_rq") /\ Silent
-            /\ UNCHANGED <<cacheIdx, mu>>
+            /\ UNCHANGED <<cacheIdx, lkmap, lkheld, want>>
        [] t.k = "idx" ->
             /\ obj' = [obj EXCEPT ![p] = IdxTag(AddTo(t.v, A(p)))]
             /\ cacheIdx' = IF ~Cache THEN cacheIdx
                            ELSE Upd(cacheIdx, t.v, IF CowIndex /\ AddTo(t.v, A(p)) # t.v THEN ValEnt(t.v) ELSE RefEnt(p))
             /\ Goto(p, "p_puttag_rq") /\ Silent
-            /\ UNCHANGED mu
+            /\ UNCHANGED <<lkmap, lkheld, want>>
        [] OTHER -> \* the tag holds TagDelete's dummy image: "manifest is not an OCI index"
             /\ Unlock(p)
             /\ Finish(p, "err", cacheIdx, <<>>)
@@ -240,13 +277,13 @@ PPutTagRq(p) ==
   /\ srvTag' = [srvTag EXCEPT ![S(p)] = IdxTag(obj[p].v)]
   /\ srvIdx' = srvIdx \cup {obj[p].v}
   /\ Goto(p, "p_cman2") /\ Silent
-  /\ UNCHANGED <<conf, srvMan, feat, cacheRL, cacheArt, cacheIdx, mu, op, obj, lpc, lq, lacc, lcur, lconc, phase, left>>
+  /\ UNCHANGED <<conf, srvMan, feat, cacheRL, cacheArt, cacheIdx, lkmap, lkheld, want, op, obj, lpc, lq, lacc, lcur, lconc, phase, left>>
 
 PCMan2(p) ==
   /\ pc[p] = "p_cman2"
   /\ cacheIdx' = IF Cache THEN Upd(cacheIdx, obj[p].v, RefEnt(p)) ELSE cacheIdx
   /\ Goto(p, "p_crl2") /\ Silent
-  /\ UNCHANGED <<conf, srvMan, srvTag, srvIdx, feat, cacheRL, cacheArt, mu, op, obj, lpc, lq, lacc, lcur, lconc, phase, left>>
+  /\ UNCHANGED <<conf, srvMan, srvTag, srvIdx, feat, cacheRL, cacheArt, lkmap, lkheld, want, op, obj, lpc, lq, lacc, lcur, lconc, phase, left>>
 
 PCRL2(p) ==
   /\ pc[p] = "p_crl2"
@@ -260,7 +297,7 @@ DGet(p) ==
   /\ pc[p] = "d_get"
   /\ Goto(p, IF conf.dopt = "man" \/ (Cache /\ A(p) \in cacheArt)
               THEN (IF LockDel /\ LockDelEarly THEN "d_lock" ELSE "d_crl") ELSE "d_get_rq") /\ Silent
-  /\ UNCHANGED <<conf, srvMan, srvTag, srvIdx, feat, cacheRL, cacheArt, cacheIdx, mu, op, obj, lpc, lq, lacc, lcur, lconc, phase, left>>
+  /\ UNCHANGED <<conf, srvMan, srvTag, srvIdx, feat, cacheRL, cacheArt, cacheIdx, lkmap, lkheld, want, op, obj, lpc, lq, lacc, lcur, lconc, phase, left>>
 
 DGetRq(p) ==
   /\ pc[p] = "d_get_rq"
@@ -270,31 +307,30 @@ DGetRq(p) ==
           /\ UNCHANGED <<cacheIdx, obj>>
      ELSE /\ Finish(p, "err", cacheIdx, <<>>)     \* failed to pull manifest for refers
           /\ UNCHANGED cacheArt
-  /\ UNCHANGED <<conf, srvMan, srvTag, srvIdx, feat, cacheRL, mu, op, lpc, lq, lacc, lcur, lconc, phase, left>>
+  /\ UNCHANGED <<conf, srvMan, srvTag, srvIdx, feat, cacheRL, lkmap, lkheld, want, op, lpc, lq, lacc, lcur, lconc, phase, left>>
 
 DCRL(p) ==
   /\ pc[p] = "d_crl"
   /\ cacheRL' = [cacheRL EXCEPT ![S(p)] = NoList]
   /\ Goto(p, "d_ping") /\ Silent
-  /\ UNCHANGED <<conf, srvMan, srvTag, srvIdx, feat, cacheArt, cacheIdx, mu, op, obj, lpc, lq, lacc, lcur, lconc, phase, left>>
+  /\ UNCHANGED <<conf, srvMan, srvTag, srvIdx, feat, cacheArt, cacheIdx, lkmap, lkheld, want, op, obj, lpc, lq, lacc, lcur, lconc, phase, left>>
 
 \* where the call continues once it knows whether the registry has the API
 AfterPing(p, f) == IF f = "yes" THEN "d_unl" ELSE IF LockDel /\ ~LockDelEarly THEN "d_lock" ELSE "d_gettag_rq"
 DPing(p) ==
   /\ pc[p] = "d_ping"
   /\ Goto(p, IF feat = "unknown" THEN "d_ping_rq" ELSE AfterPing(p, feat)) /\ Silent
-  /\ UNCHANGED <<conf, srvMan, srvTag, srvIdx, feat, cacheRL, cacheArt, cacheIdx, mu, op, obj, lpc, lq, lacc, lcur, lconc, phase, left>>
+  /\ UNCHANGED <<conf, srvMan, srvTag, srvIdx, feat, cacheRL, cacheArt, cacheIdx, lkmap, lkheld, want, op, obj, lpc, lq, lacc, lcur, lconc, phase, left>>
 
 DPingRq(p) ==
   /\ pc[p] = "d_ping_rq"
   /\ feat' = IF conf.mode = "api" THEN "yes" ELSE "no"
   /\ Goto(p, AfterPing(p, feat')) /\ Silent
-  /\ UNCHANGED <<conf, srvMan, srvTag, srvIdx, cacheRL, cacheArt, cacheIdx, mu, op, obj, lpc, lq, lacc, lcur, lconc, phase, left>>
+  /\ UNCHANGED <<conf, srvMan, srvTag, srvIdx, cacheRL, cacheArt, cacheIdx, lkmap, lkheld, want, op, obj, lpc, lq, lacc, lcur, lconc, phase, left>>
 
 DLock(p) ==
   /\ pc[p] = "d_lock"
-  /\ mu = "" /\ mu' = p
-  /\ Goto(p, IF LockDelEarly THEN "d_crl" ELSE "d_gettag_rq") /\ Silent
+  /\ TakeLock(p, IF LockDelEarly THEN "d_crl" ELSE "d_gettag_rq") /\ Silent
   /\ UNCHANGED <<conf, srvMan, srvTag, srvIdx, feat, cacheRL, cacheArt, cacheIdx, op, obj, lpc, lq, lacc, lcur, lconc, phase, left>>
 
 DGetTagRq(p) ==
@@ -315,7 +351,7 @@ DGetTagRq(p) ==
        [] OTHER ->             \* dummy image in the tag: not an OCI index, the delete fails
             /\ Goto(p, "d_fail") /\ Silent
             /\ UNCHANGED <<cacheIdx, obj>>
-  /\ UNCHANGED <<conf, srvMan, srvTag, srvIdx, feat, cacheRL, cacheArt, mu, op, lpc, lq, lacc, lcur, lconc, phase, left>>
+  /\ UNCHANGED <<conf, srvMan, srvTag, srvIdx, feat, cacheRL, cacheArt, lkmap, lkheld, want, op, lpc, lq, lacc, lcur, lconc, phase, left>>
 
 DFail(p) ==
   /\ pc[p] = "d_fail"
@@ -329,24 +365,24 @@ DTagDelRq(p) ==
      THEN srvTag' = [srvTag EXCEPT ![S(p)] = NoTag] /\ Goto(p, "d_unl")
      ELSE UNCHANGED srvTag /\ Goto(p, "d_tdhead_rq")
   /\ Silent
-  /\ UNCHANGED <<conf, srvMan, srvIdx, feat, cacheRL, cacheArt, cacheIdx, mu, op, obj, lpc, lq, lacc, lcur, lconc, phase, left>>
+  /\ UNCHANGED <<conf, srvMan, srvIdx, feat, cacheRL, cacheArt, cacheIdx, lkmap, lkheld, want, op, obj, lpc, lq, lacc, lcur, lconc, phase, left>>
 
 DTdHeadRq(p) ==
   /\ pc[p] = "d_tdhead_rq"
   /\ Goto(p, IF srvTag[S(p)].k = "none" THEN "d_puttag_rq" ELSE "d_tdput_rq") /\ Silent
-  /\ UNCHANGED <<conf, srvMan, srvTag, srvIdx, feat, cacheRL, cacheArt, cacheIdx, mu, op, obj, lpc, lq, lacc, lcur, lconc, phase, left>>
+  /\ UNCHANGED <<conf, srvMan, srvTag, srvIdx, feat, cacheRL, cacheArt, cacheIdx, lkmap, lkheld, want, op, obj, lpc, lq, lacc, lcur, lconc, phase, left>>
 
 DTdPutRq(p) ==
   /\ pc[p] = "d_tdput_rq"
   /\ srvTag' = [srvTag EXCEPT ![S(p)] = TmpTag(p)]
   /\ Goto(p, "d_tdrm_rq") /\ Silent
-  /\ UNCHANGED <<conf, srvMan, srvIdx, feat, cacheRL, cacheArt, cacheIdx, mu, op, obj, lpc, lq, lacc, lcur, lconc, phase, left>>
+  /\ UNCHANGED <<conf, srvMan, srvIdx, feat, cacheRL, cacheArt, cacheIdx, lkmap, lkheld, want, op, obj, lpc, lq, lacc, lcur, lconc, phase, left>>
 
 DTdRmRq(p) ==
   /\ pc[p] = "d_tdrm_rq"
   /\ srvTag' = [s \in Subj |-> IF srvTag[s] = TmpTag(p) THEN NoTag ELSE srvTag[s]]
   /\ Goto(p, "d_unl") /\ Silent
-  /\ UNCHANGED <<conf, srvMan, srvIdx, feat, cacheRL, cacheArt, cacheIdx, mu, op, obj, lpc, lq, lacc, lcur, lconc, phase, left>>
+  /\ UNCHANGED <<conf, srvMan, srvIdx, feat, cacheRL, cacheArt, cacheIdx, lkmap, lkheld, want, op, obj, lpc, lq, lacc, lcur, lconc, phase, left>>
 
 DPutTagRq(p) ==
   /\ pc[p] = "d_puttag_rq"
@@ -354,7 +390,7 @@ DPutTagRq(p) ==
   /\ srvIdx' = srvIdx \cup {obj[p].v}
   /\ cacheIdx' = IF Cache THEN Upd(cacheIdx, obj[p].v, RefEnt(p)) ELSE cacheIdx
   /\ Goto(p, "d_unl") /\ Silent
-  /\ UNCHANGED <<conf, srvMan, feat, cacheRL, cacheArt, mu, op, obj, lpc, lq, lacc, lcur, lconc, phase, left>>
+  /\ UNCHANGED <<conf, srvMan, feat, cacheRL, cacheArt, lkmap, lkheld, want, op, obj, lpc, lq, lacc, lcur, lconc, phase, left>>
 
 \* referrerDelete returns (deferred Unlock), ManifestDelete drops the artifact from cacheMan
 DUnl(p) ==
@@ -370,7 +406,7 @@ DDeleteRq(p) ==
   /\ IF A(p) \in srvMan
      THEN Goto(p, "d_cman2") /\ Silent /\ UNCHANGED <<cacheIdx, obj>>
      ELSE Finish(p, "err", cacheIdx, obj[p].v)
-  /\ UNCHANGED <<conf, srvTag, srvIdx, feat, cacheRL, cacheArt, mu, op, lpc, lq, lacc, lcur, lconc, phase, left>>
+  /\ UNCHANGED <<conf, srvTag, srvIdx, feat, cacheRL, cacheArt, lkmap, lkheld, want, op, lpc, lq, lacc, lcur, lconc, phase, left>>
 
 \* after a successful DELETE the artifact is dropped from cacheMan once more (a concurrent push or
 \* get of the same digest may have stored it again) and so is the cached referrer list of its
@@ -380,7 +416,7 @@ DCMan2(p) ==
   /\ cacheArt' = cacheArt \ {A(p)}
   /\ cacheRL' = IF InvAfterDel THEN [cacheRL EXCEPT ![S(p)] = NoList] ELSE cacheRL
   /\ Finish(p, "ok", cacheIdx, obj[p].v)
-  /\ UNCHANGED <<conf, srvMan, srvTag, srvIdx, feat, mu, op, lpc, lq, lacc, lcur, lconc, phase, left>>
+  /\ UNCHANGED <<conf, srvMan, srvTag, srvIdx, feat, lkmap, lkheld, want, op, lpc, lq, lacc, lcur, lconc, phase, left>>
 
 \* --------------------------------------------- ocidir: the whole call under o.mu
 ORun(p) ==
@@ -400,14 +436,14 @@ ORun(p) ==
                                                    ELSE IdxTag(Without(tv, a))]
                /\ srvIdx' = IF a \in Range(tv) /\ Without(tv, a) # <<>> THEN srvIdx \cup {Without(tv, a)} ELSE srvIdx
                /\ Finish(p, "ok", cacheIdx, <<>>)
-  /\ UNCHANGED <<conf, feat, cacheRL, cacheArt, mu, op, lpc, lq, lacc, lcur, lconc, phase, left>>
+  /\ UNCHANGED <<conf, feat, cacheRL, cacheArt, lkmap, lkheld, want, op, lpc, lq, lacc, lcur, lconc, phase, left>>
 
 \* ------------------------------------------------------ quiescent observation
 Quiesce ==
   /\ AllIdle /\ lpc = "idle" /\ phase = "run"
   /\ phase' = "obs"
   /\ out' = [ev |-> "stored", set |-> srvMan]
-  /\ UNCHANGED <<conf, srvMan, srvTag, srvIdx, feat, cacheRL, cacheArt, cacheIdx, mu, pc, op, obj, lpc, lq, lacc, lcur, lconc, left>>
+  /\ UNCHANGED <<conf, srvMan, srvTag, srvIdx, feat, cacheRL, cacheArt, cacheIdx, lkmap, lkheld, want, pc, op, obj, lpc, lq, lacc, lcur, lconc, left>>
 
 ListEv(s, f, descs, err) ==
   LET r == Sel(descs, f) IN
@@ -422,14 +458,14 @@ ListStart(s, f) ==
   /\ lq' = [s |-> s, f |-> f] /\ lacc' = <<>> /\ lcur' = 0 /\ lconc' = ~AllIdle
   /\ lpc' = IF Reg THEN "l_cache" ELSE "l_oci"
   /\ Silent
-  /\ UNCHANGED <<conf, srvMan, srvTag, srvIdx, feat, cacheRL, cacheArt, cacheIdx, mu, pc, op, obj, phase, left>>
+  /\ UNCHANGED <<conf, srvMan, srvTag, srvIdx, feat, cacheRL, cacheArt, cacheIdx, lkmap, lkheld, want, pc, op, obj, phase, left>>
 
 LCache ==
   /\ lpc = "l_cache"
   /\ IF Cache /\ cacheRL[ListKey(lq.s)].k = "list"
      THEN lpc' = "idle" /\ Tell(ListEv(lq.s, lq.f, cacheRL[ListKey(lq.s)].v, ""))
      ELSE lpc' = (IF feat = "no" THEN "l_tag_rq" ELSE "l_api_rq") /\ Silent
-  /\ UNCHANGED <<conf, srvMan, srvTag, srvIdx, feat, cacheRL, cacheArt, cacheIdx, mu, pc, op, obj, lq, lacc, lcur, lconc, phase, left>>
+  /\ UNCHANGED <<conf, srvMan, srvTag, srvIdx, feat, cacheRL, cacheArt, cacheIdx, lkmap, lkheld, want, pc, op, obj, lq, lacc, lcur, lconc, phase, left>>
 
 \* one page of the referrers API: the matching manifests after the cursor, in key order
 ApiAll == LET m == {a \in srvMan : conf.subj[a] = lq.s /\ (IsTypeFilter(lq.f) => Match(a, lq.f)) /\ Ord[a] > lcur}
@@ -448,7 +484,7 @@ LApiRq ==
           /\ lpc' = IF n < Len(rest) THEN "l_api_rq" ELSE "l_api_done"
           /\ UNCHANGED feat
   /\ Silent
-  /\ UNCHANGED <<conf, srvMan, srvTag, srvIdx, cacheRL, cacheArt, cacheIdx, mu, pc, op, obj, lq, lconc, phase, left>>
+  /\ UNCHANGED <<conf, srvMan, srvTag, srvIdx, cacheRL, cacheArt, cacheIdx, lkmap, lkheld, want, pc, op, obj, lq, lconc, phase, left>>
 
 LApiDone ==
   /\ lpc = "l_api_done"
@@ -456,7 +492,7 @@ LApiDone ==
   /\ cacheRL' = IF Cache /\ ~IsTypeFilter(lq.f) THEN [cacheRL EXCEPT ![ListKey(lq.s)] = AList(lacc)] ELSE cacheRL
   /\ lpc' = "idle"
   /\ Tell(ListEv(lq.s, lq.f, lacc, ""))
-  /\ UNCHANGED <<conf, srvMan, srvTag, srvIdx, cacheArt, cacheIdx, mu, pc, op, obj, lq, lacc, lcur, lconc, phase, left>>
+  /\ UNCHANGED <<conf, srvMan, srvTag, srvIdx, cacheArt, cacheIdx, lkmap, lkheld, want, pc, op, obj, lq, lacc, lcur, lconc, phase, left>>
 
 LTagRq ==
   /\ lpc = "l_tag_rq"
@@ -469,13 +505,13 @@ LTagRq ==
           /\ cacheRL' = IF Cache THEN [cacheRL EXCEPT ![ListKey(lq.s)] = AList(d)] ELSE cacheRL
           /\ Tell(ListEv(lq.s, lq.f, d, ""))
   /\ lpc' = "idle"
-  /\ UNCHANGED <<conf, srvMan, srvTag, srvIdx, feat, cacheArt, mu, pc, op, obj, lq, lacc, lcur, lconc, phase, left>>
+  /\ UNCHANGED <<conf, srvMan, srvTag, srvIdx, feat, cacheArt, lkmap, lkheld, want, pc, op, obj, lq, lacc, lcur, lconc, phase, left>>
 
 LOci ==
   /\ lpc = "l_oci"
   /\ lpc' = "idle"
   /\ Tell(ListEv(lq.s, lq.f, IF srvTag[lq.s].k = "idx" THEN srvTag[lq.s].v ELSE <<>>, ""))
-  /\ UNCHANGED <<conf, srvMan, srvTag, srvIdx, feat, cacheRL, cacheArt, cacheIdx, mu, pc, op, obj, lq, lacc, lcur, lconc, phase, left>>
+  /\ UNCHANGED <<conf, srvMan, srvTag, srvIdx, feat, cacheRL, cacheArt, cacheIdx, lkmap, lkheld, want, pc, op, obj, lq, lacc, lcur, lconc, phase, left>>
 
 \* raw content of the fall-back tag
 TagObs(s) ==
@@ -491,7 +527,7 @@ Fetch(d) ==
   /\ phase = "obs" /\ lpc = "idle" /\ d \in srvIdx
   /\ cacheIdx' = IF Reg /\ Cache /\ d \notin DOMAIN cacheIdx THEN Upd(cacheIdx, d, ValEnt(d)) ELSE cacheIdx
   /\ out' = [ev |-> "fetch", asked |-> d, got |-> FetchGot(d)]
-  /\ UNCHANGED <<conf, srvMan, srvTag, srvIdx, feat, cacheRL, cacheArt, mu, pc, op, obj, lpc, lq, lacc, lcur, lconc, phase, left>>
+  /\ UNCHANGED <<conf, srvMan, srvTag, srvIdx, feat, cacheRL, cacheArt, lkmap, lkheld, want, pc, op, obj, lpc, lq, lacc, lcur, lconc, phase, left>>
 
 \* ---------------------------------------------------------------- next-state
 ReqPcs == {"p_put_rq", "p_get_rq", "p_puttag_rq", "d_get_rq", "d_ping_rq", "d_gettag_rq", "d_tagdel_rq",
@@ -543,6 +579,12 @@ CacheRLExact == AllIdle => \A k \in RLKeys : cacheRL[k].k = "list" =>
 \* cacheMan serves under a digest only content that has this digest
 CacheCoherent == \A d \in DOMAIN cacheIdx : Deref(cacheIdx[d], obj) = d
 \* the lock is held only inside the locked regions, by a running call
-LockSane == mu # "" => mu \in Procs /\ pc[mu] \notin {"idle", "p_put_rq", "p_cman", "p_crl", "p_lock", "d_get", "d_get_rq", "d_delete_rq", "d_cman2"}
+LockSane == \A o \in LockIds : lkheld[o] # "" =>
+              /\ lkheld[o] \in Procs /\ want[lkheld[o]] = o
+              /\ pc[lkheld[o]] \notin {"idle", "p_put_rq", "p_cman", "p_crl", "p_lock", "d_get", "d_get_rq", "d_delete_rq", "d_cman2"}
+\* the read-modify-write of one fall-back tag is a critical section
+RMWPcs == {"p_get_rq", "p_puttag_rq", "p_cman2", "p_crl2", "d_gettag_rq", "d_tagdel_rq", "d_tdhead_rq", "d_tdput_rq",
+           "d_tdrm_rq", "d_puttag_rq"}
+TagMutex == \A p, q \in Procs : (p # q /\ pc[p] \in RMWPcs /\ pc[q] \in RMWPcs) => S(p) # S(q)
 NoApiTag == conf.mode = "api" => \A s \in Subj : srvTag[s] = NoTag
 =============================================================================
